@@ -26,7 +26,7 @@ def insert_ok(dfa, s, c):
     return [i for i in range(len(s) + 1) if dfa.accepts(s[:i] + (c,) + s[i:])]
 
 
-def check_one(rule_name, ra, robj, parent, child_nodes, s, c, rank):
+def check_one(rule_name, ra, robj, parent, child_nodes, s, c, rank, robj_used=None):
     case = {"rule": rule_name, "seq": list(s), "candidate": c}
     probs = []
     parent.children = [child_nodes[a] for a in s]
@@ -35,6 +35,22 @@ def check_one(rule_name, ra, robj, parent, child_nodes, s, c, rank):
         exc = None
     except Exception as e:  # noqa
         idx, exc = None, e
+    if robj_used is not None:
+        # the same question to a Rule object that has just validated this parent (an editor validates, then asks where a
+        # new child goes): same answer
+        try:
+            robj_used.validate_rule(parent, [])
+        except Exception:  # noqa  (validation itself is C01-C04's subject)
+            pass
+        try:
+            idx2, exc2 = robj_used.child_insert_index(parent, child_nodes[c]), None
+        except Exception as e:  # noqa
+            idx2, exc2 = None, e
+        if idx2 != idx or type(exc2) is not type(exc):
+            probs.append(problem("answer_depends_on_rule_object_history", case,
+                                 expected={"index": idx, "exception": type(exc).__name__ if exc else None},
+                                 observed={"index": idx2, "exception": repr(exc2) if exc2 else None}, rule=rule_name))
+        parent.children = [child_nodes[a] for a in s]
     if c == e2.FOREIGN:
         if not isinstance(exc, ChildNotAllowedError):
             probs.append(problem("foreign_not_refused", case, expected="ChildNotAllowedError",
@@ -71,6 +87,7 @@ def work(item):
     core.reset_store()
     parent, direct = ruleinfo.parent_for(rule_name, node_id="P")
     robj = mrule.Rule(rule_name)
+    robj_used = mrule.Rule(rule_name)
     child_nodes = {a: Node(a, id="c_" + a) for a in ra.alphabet}
     rank = {}
     for i, a in enumerate(ra.flat):
@@ -85,7 +102,7 @@ def work(item):
             s = pre + w
             for c in ra.alphabet:
                 n += 1
-                probs, label = check_one(rule_name, ra, robj, parent, child_nodes, s, c, rank)
+                probs, label = check_one(rule_name, ra, robj, parent, child_nodes, s, c, rank, robj_used)
                 acc.outcome(label)
                 if probs:
                     acc.add_problems(probs)
@@ -115,6 +132,17 @@ def allowed_work(rule_name):
         case = {"rule": rule_name, "allowed_query": x}
         try:
             obs = robj.is_allowed_child(x)
+            if obs == exp:
+                # ... and the same Rule object answers the same after it has validated nodes (valid and invalid ones)
+                for w_ in (ruleinfo.shortest_accepted(ra) or [], list(ra.names[:3]), ["zzForeignElement"]):
+                    nd_, _d = ruleinfo.parent_for(rule_name)
+                    for a_ in w_:
+                        nd_.add_child(Node(a_))
+                    try:
+                        robj.validate_rule(nd_, [])
+                    except Exception:  # noqa
+                        pass
+                obs = robj.is_allowed_child(x)
         except Exception as e:  # noqa
             obs = repr(e)
         acc.count("allowed_queries")
@@ -140,6 +168,14 @@ def refusal_work(rule_name):
     if w:
         seqs.append(tuple(w))
     outside = [x for x in sorted(mrule.node_mappings) if x not in ra.names] + ["zzForeignElement", "", "Title", "eml:eml"]
+    # first a question about a parent that already holds children the rule does not declare (what is answered there is
+    # outside the statement; whatever it is, it must not change later answers of this Rule object)
+    parent.children = [Node(x, id=f"u{i}") for i, x in enumerate(outside[-4:] + outside[:2])]
+    for cand in (list(ra.names[:2]) + ["zzForeignElement"]):
+        try:
+            robj.child_insert_index(parent, Node(cand, id="cand0"))
+        except Exception:  # noqa
+            pass
     for s in seqs:
         parent.children = [Node(a, id=f"k{i}") for i, a in enumerate(s)]
         for x in outside:
@@ -207,7 +243,7 @@ def replay(case):
     rank = {}
     for i, a in enumerate(ra.flat):
         rank.setdefault(a, i)
-    probs, _ = check_one(rn, ra, robj, parent, child_nodes, tuple(case["seq"]), case["candidate"], rank)
+    probs, _ = check_one(rn, ra, robj, parent, child_nodes, tuple(case["seq"]), case["candidate"], rank, mrule.Rule(rn))
     return probs
 
 
